@@ -328,7 +328,10 @@ class _Walker:
                 containerish = isinstance(st.value, (ast.List, ast.Set, ast.Dict, ast.ListComp, ast.SetComp, ast.DictComp)) \
                     or (isinstance(st.value, ast.Call) and W.call_name(st.value) in ("list", "set", "dict")) \
                     or (cur is not None and cur.typ in ("list", "set", "dict", "defaultdict"))
-                if containerish and cur is not None:
+                arrayish = self.f.module.rel == "wfsa/field_wfsa.py" and cur is not None and cur.typ not in ("immutable",) \
+                    and not isinstance(st.value, ast.Constant) and cur.kind == DERIVED and cur.root in ("self", "cache", "unknown") \
+                    and isinstance(st.op, (ast.Div, ast.Mult, ast.Add, ast.Sub)) and self._maybe_array(t.id)
+                if (containerish or arrayish) and cur is not None:
                     self.effect(st, "augname", t, cur)
                 # the name keeps its binding (in-place for containers)
             else:
@@ -427,6 +430,16 @@ class _Walker:
             for n in ast.iter_child_nodes(st):
                 if isinstance(n, ast.expr):
                     self.scan_expr(n)
+
+    def _maybe_array(self, name):
+        """in the dense linear-algebra module: a name unpacked from a work-list item / bound to self.start|stop|arcs[...] holds an ndarray"""
+        for st, val in W.assignments_to(self.f.node, name):
+            if val is None:
+                return True  # tuple unpack from a container element
+            txt = norm(val)
+            if any(k in txt for k in ("self.start", "self.stop", ".stop", ".start", "self.arcs", "@")):
+                return True
+        return False
 
     def merge(self, a, b):
         out = {}
